@@ -148,6 +148,7 @@ def gen(r, tier, i):
         r.shuffle(times)          # rows reach the emitter out of time order (two streams into one emitter)
     rows = [fill(sh, r) for _ in times]
     lp = list(shape_leaves(sh))
+    split_emit = r.random() < 0.25
     query = [list(p) for p in r.sample(lp, r.randint(1, len(lp)))]
     extra = []
     if r.random() < 0.3:
@@ -155,7 +156,7 @@ def gen(r, tier, i):
     br = [b for b in branches(sh) if not any(tuple(q[:len(b)]) == b for q in query)]
     if br and r.random() < 0.3:
         extra.append(list(r.choice(br)))
-    return {'shape': sh, 'times': times, 'rows': rows, 'query': query, 'extra_query': extra,
+    return {'split_emit': split_emit, 'shape': sh, 'times': times, 'rows': rows, 'query': query, 'extra_query': extra,
             'embed': r.choice([[], [], [], ['x'], ['x', 'y']])}
 
 
@@ -211,7 +212,14 @@ def run(spec):
     rows = [realise(r, units) for r in spec['rows']]
     em = RAMEmitter({'embed_path': embed} if embed else {})
     for t, row in zip(times, rows):
-        em.emit({'table': 'history', 'data': dict(copy.deepcopy(row), time=t)})
+        keys = sorted(row)
+        if spec.get('split_emit') and len(keys) >= 2:
+            # two streams into one emitter: each time arrives in two emits carrying different variables
+            half = len(keys) // 2
+            for part in (keys[:half], keys[half:]):
+                em.emit({'table': 'history', 'data': dict(copy.deepcopy({k: row[k] for k in part}), time=t)})
+        else:
+            em.emit({'table': 'history', 'data': dict(copy.deepcopy(row), time=t)})
     # time -> {path: value}; with an embed_path every row is stored under that path
     given = {t: {embed + p: v for p, v in leaves_q(row).items()} for t, row in zip(times, rows)}
     rows = [nest_under(embed, row) for row in rows]
